@@ -13,7 +13,7 @@ from the implementation and fed to the model as an oracle; it is separately comp
 model's own expansion.
 """
 import os as _os
-STATIC = ["C15/Props"] if _os.path.exists("/verif/coq/theories/C15/Props.v") else ["C15/Model"]
+STATIC = ["C15/Props", "C15/History"]
 import itertools
 import math
 import random
@@ -281,7 +281,7 @@ def rand_dm(rng, n):
 
 
 def to_arr(x, shape):
-    """`total = 0` of apply_gates_prefix when a Hamiltonian has no terms and no constant"""
+    """`total = 0` of apply_gates when a Hamiltonian has no terms and no constant"""
     if isinstance(x, (int, float, complex)):
         return np.zeros(shape, dtype=complex) + x
     return np.asarray(x)
@@ -350,10 +350,10 @@ def check_symbolic(run, B, tag, ast, n, rng, expr=None, deep=True):
         rp = {**desc, "psi": [[int(x.real), int(x.imag)] for x in psi]}
         cls = "order" if multi else "plain"
         # faithful model
-        B.add(f"{tag}:apply_model", f"meqb (apply_gates_prefix {n}%nat (terms_of {orc}) {P}) {ccol(hpsi)}", {**rp, "what": "h @ psi vs model of apply_gates_prefix"})
-        B.add(f"{tag}:apply_dm_model", f"meqb (apply_gates_prefix {n}%nat (terms_of {orc}) {R}) {cmat(hrho)}", {**rp, "what": "h @ rho vs model of apply_gates_prefix"})
-        B.add(f"{tag}:expect_model", f"({zint(ev)} =? sym_expect_state_prefix {n}%nat (terms_of {orc}) {P})", {**rp, "what": "expectation(psi) vs model"})
-        B.add(f"{tag}:expect_dm_model", f"({zint(evd)} =? sym_expect_dm_prefix {n}%nat (terms_of {orc}) {R})", {**rp, "what": "expectation(rho) vs model"})
+        B.add(f"{tag}:apply_model", f"meqb (apply_gates {n}%nat (terms_of {orc}) {P}) {ccol(hpsi)}", {**rp, "what": "h @ psi vs model of apply_gates"})
+        B.add(f"{tag}:apply_dm_model", f"meqb (apply_gates {n}%nat (terms_of {orc}) {R}) {cmat(hrho)}", {**rp, "what": "h @ rho vs model of apply_gates"})
+        B.add(f"{tag}:expect_model", f"({zint(ev)} =? sym_expect_state {n}%nat (terms_of {orc}) {P})", {**rp, "what": "expectation(psi) vs model"})
+        B.add(f"{tag}:expect_dm_model", f"({zint(evd)} =? sym_expect_dm {n}%nat (terms_of {orc}) {R})", {**rp, "what": "expectation(rho) vs model"})
         # specification
         B.add(f"{tag}:apply_spec:{cls}", f"meqb (apply_spec {n}%nat {A} {P}) {ccol(hpsi)}",
               {**rp, "what": "h @ psi vs [[form]] psi", "impl": [[int(x.real), int(x.imag)] for x in hpsi], "kind": "apply"})
@@ -361,13 +361,11 @@ def check_symbolic(run, B, tag, ast, n, rng, expr=None, deep=True):
         B.add(f"{tag}:expect_spec:{cls}", f"({zint(ev)} =? dense_expect_state (denote {n}%nat {A}) {P})",
               {**rp, "what": "h.expectation(psi) vs Re <psi|[[form]]|psi>", "impl": float(ev), "kind": "expect"})
         B.add(f"{tag}:expect_dm_spec:{cls}", f"({zint(evd)} =? dense_expect_dm (denote {n}%nat {A}) {R})", {**rp, "what": "h.expectation(rho) vs Re tr([[form]] rho)", "kind": "expect_dm"})
-        if multi:   # the repaired model (factors applied last-to-first), in case /repo has been repaired
-            B.add(f"{tag}:apply_modelfixed", f"meqb (apply_gates {n}%nat (terms_of {orc}) {P}) {ccol(hpsi)}", rp, expect=None)
-            B.add(f"{tag}:apply_dm_modelfixed", f"meqb (apply_gates {n}%nat (terms_of {orc}) {R}) {cmat(hrho)}", rp, expect=None)
-            B.add(f"{tag}:expect_modelfixed", f"({zint(ev)} =? expect_state (apply_gates {n}%nat (terms_of {orc}) {P}) {P})", rp, expect=None)
-            B.add(f"{tag}:expect_dm_modelfixed", f"({zint(evd)} =? expect_dm (apply_gates {n}%nat (terms_of {orc}) {R}))", rp, expect=None)
-        # classification of a spec failure: is it exactly the factor order?
-        B.add(f"{tag}:apply_fixed", f"meqb (apply_gates {n}%nat (terms_of {orc}) {P}) (apply_spec {n}%nat {A} {P})", {**rp, "what": "model with reversed factor order vs spec"})
+        if multi:   # the HISTORICAL model (factors applied first-to-last), only to classify a regression precisely
+            B.add(f"{tag}:apply_modelprefix", f"meqb (apply_gates_prefix {n}%nat (terms_of {orc}) {P}) {ccol(hpsi)}", rp, expect=None)
+            B.add(f"{tag}:apply_dm_modelprefix", f"meqb (apply_gates_prefix {n}%nat (terms_of {orc}) {R}) {cmat(hrho)}", rp, expect=None)
+            B.add(f"{tag}:expect_modelprefix", f"({zint(ev)} =? sym_expect_state_prefix {n}%nat (terms_of {orc}) {P})", rp, expect=None)
+            B.add(f"{tag}:expect_dm_modelprefix", f"({zint(evd)} =? sym_expect_dm_prefix {n}%nat (terms_of {orc}) {R})", rp, expect=None)
         # dense route
         B.add(f"{tag}:dense_apply", f"meqb (apply_spec {n}%nat {A} {P}) {ccol(dpsi)} && meqb (apply_spec {n}%nat {A} {R}) {cmat(drho)}", {**rp, "what": "h.dense @ psi / rho"})
         B.add(f"{tag}:dense_expect", f"({zint(evD)} =? dense_expect_state (denote {n}%nat {A}) {P}) && ({zint(evdD)} =? dense_expect_dm (denote {n}%nat {A}) {R})", {**rp, "what": "h.dense.expectation"})
@@ -431,25 +429,19 @@ def judge(run, B, res):
         what = parts[1]
         if ok or expect is None:
             continue
-        if what.endswith("_model") and res.get(f"{tag}:{what}fixed", False):
-            # the implementation follows the repaired model (the defect was fixed in /repo)
-            run.notes.setdefault("implementation_follows_repaired_model", {}).setdefault(what, 0)
-            run.notes["implementation_follows_repaired_model"][what] += 1
-            continue
+        if what.endswith("_model") and what.split("_model")[0] in ("apply", "apply_dm", "expect", "expect_dm"):
+            continue        # reported through the corresponding _spec item (the live model is proved equal to the spec)
         if what.endswith("_spec") and what.split("_spec")[0] in ("apply", "apply_dm", "expect", "expect_dm"):
-            # the implementation disagrees with the mathematical operator.  It is the known factor-order
-            # defect iff the faithful model agrees with the implementation, the form has a term with
-            # several factors on one qubit, and applying the factors in reverse order repairs it.
-            model_ok = res.get(f"{tag}:{what.replace('_spec', '_model')}", False)
-            fixed_ok = res.get(f"{tag}:apply_fixed", False)
-            if parts[2] == "order" and model_ok and fixed_ok:
+            # the implementation disagrees with the mathematical operator.  It is the (repaired) factor-order
+            # defect again iff the historical model reproduces the implementation on a form with several
+            # factors on one qubit.
+            old_ok = res.get(f"{tag}:{what.replace('_spec', '_modelprefix')}", False)
+            if parts[2] == "order" and old_ok:
                 run.find(f"factor_order:{what.replace('_spec', '')}:{meta['form']}",
                          f"SymbolicTerm.__call__ applies same-qubit factors in reverse order: {meta['what']} differs for {meta['sympy_form']}",
                          {"mechanism": "symbolic", **meta})
             else:
                 run.find(f"{what}:{meta['form']}", f"{meta['what']} differs (not explained by the factor order)", {"mechanism": "symbolic", **meta})
-        elif what == "apply_fixed":
-            run.find(f"apply_fixed:{meta['form']}", "reversing the factor order does not give [[form]] psi", {"mechanism": "symbolic", **meta}, concrete=False)
         elif on_false is not None:
             on_false(run, label, meta)
         else:
@@ -620,10 +612,10 @@ def run_samples(run, rng, only=None):
             run.case(["samples", desc["form"], fr, qmap])
             if k < 2:
                 run.sample({"kind": "expectation_from_samples", **desc, "value": float(val)})
-            B.add(f"s{k}:samples_model", f"opair_eqb (sym_samples_prefix (terms_of {orc}) {freq_coq(fr)} {znats(qm)}) (Some ({V}, {total}))",
+            B.add(f"s{k}:samples_model", f"opair_eqb (sym_samples (terms_of {orc}) {freq_coq(fr)} {znats(qm)}) (Some ({V}, {total}))",
                   {**desc, "case": f"sym:{desc['form']}", "what": "SymbolicHamiltonian.expectation_from_samples vs model"})
             if multi:
-                B.add(f"s{k}:samples_modelfixed", f"opair_eqb (sym_samples (terms_of {orc}) {freq_coq(fr)} {znats(qm)}) (Some ({V}, {total}))", desc, expect=None)
+                B.add(f"s{k}:samples_modelprefix", f"opair_eqb (sym_samples_prefix (terms_of {orc}) {freq_coq(fr)} {znats(qm)}) (Some ({V}, {total}))", desc, expect=None)
             B.add(f"s{k}:samples_spec:{'order' if multi else 'plain'}",
                   f"({V} =? samples_spec {n}%nat (denote {n}%nat {A}) {freq_coq(fr)} {znats(qm)})",
                   {**desc, "value": float(val), "what": "expectation_from_samples vs frequency-weighted eigenvalues of [[form]]"},
@@ -635,11 +627,11 @@ def run_samples(run, rng, only=None):
                 Vd = f"(Some ({samples_value(vd, total)}, {total}))"
             except (IndexError, ValueError, TypeError) as e:
                 vd, Vd = None, "None"
-            B.add(f"s{k}:dsamples_model", f"opair_eqb (dense_samples_prefix {cmat(h.matrix)} {freq_coq(fr)} {znats(qm)}) {Vd}",
+            B.add(f"s{k}:dsamples_model", f"opair_eqb (dense_samples {cmat(h.matrix)} {freq_coq(fr)} {znats(qm)}) {Vd}",
                   {**desc, "case": f"dense:{desc['form']}", "what": "Hamiltonian.expectation_from_samples vs model"})
             full = sorted(qm) == list(range(n))
             if not full:
-                B.add(f"s{k}:dsamples_modelfixed", f"opair_eqb (dense_samples {n}%nat {cmat(h.matrix)} {freq_coq(fr)} {znats(qm)}) {Vd}", desc, expect=None)
+                B.add(f"s{k}:dsamples_modelprefix", f"opair_eqb (dense_samples_prefix {cmat(h.matrix)} {freq_coq(fr)} {znats(qm)}) {Vd}", desc, expect=None)
             if vd is not None:
                 B.add(f"s{k}:dsamples_spec:{'full' if full else 'partial'}",
                       f"({samples_value(vd, total)} =? samples_spec {n}%nat (denote {n}%nat {A}) {freq_coq(fr)} {znats(qm)})",
@@ -660,7 +652,7 @@ def run_samples(run, rng, only=None):
         except Exception:
             refused = True
         run.case(["samples-malformed", why], nontrivial=False)
-        B.add(f"sbad{j}:samples_reject", f"opair_eqb (sym_samples_prefix (terms_of {oracle_monomials(h.form)}) {freq_coq(fr)} {znats(qmap)}) None",
+        B.add(f"sbad{j}:samples_reject", f"opair_eqb (sym_samples (terms_of {oracle_monomials(h.form)}) {freq_coq(fr)} {znats(qmap)}) None",
               {"case": f"malformed:{why}", "mechanism": "samples", "what": "model refuses what the implementation refuses"},
               expect=refused)
         if not refused:
@@ -793,9 +785,10 @@ def main(run):
     run_samples(run, rng)
     run_models(run, rng)
     run_malformed(run, rng)
-    run.not_proved += ["samples_expectation_ok for the symbolic route (terms with one Z factor per qubit): correspondence against samples_spec only",
-                       "models_ok for Heisenberg / XXZ / XXX: correspondence (n = 2..5) only; TFIM, X, Y, Z, MaxCut are proved for all n",
-                       "negative integer powers (numpy matrix inverse) are outside the model"]
+    run.not_proved += ["negative integer powers (numpy matrix inverse) are outside the model",
+                       "nested powers of one symbol such as (Y0**3)**2 are refused by SymbolicTerm.__init__ (AssertionError); the dense route handles them"]
+    run.notes["historical"] = ("coq/theories/C15/History.v holds lemmas about the pre-repair code (factor order, sample parity, "
+                               "dense partial maps); they are not statements about the current tree")
     return run.finish(level="proof", rule=RULE)
 
 
